@@ -77,6 +77,10 @@ def _gen_bits(rng, n, p_masked):
 
 def _gen_scales(rng, aniso_ok=True):
     base = rng.choice([0.05, 0.1, 0.5, 1.0, 2.0, 3.7])
+    if aniso_ok and rng.random() < 0.08:
+        # anisotropic but CLOSE: scales that differ by less than any "is it the same?" tolerance a writer might apply,
+        # and scales in small units (radians) where a 4 % anisotropy is an absolute difference of 2e-9
+        return rng.choice([[base, base + 5e-9], [base + 2e-9, base], [4.8e-8, 5.0e-8], [1e-6, 1.000001e-6]])
     if aniso_ok and rng.random() < 0.3:
         other = rng.choice([s for s in [0.05, 0.1, 0.5, 1.0, 2.0, 3.7] if s != base])
         return [base, other]
